@@ -14,6 +14,7 @@ import (
 	"net"
 	"os"
 	"runtime"
+	"sync/atomic"
 	"syscall"
 	"time"
 	"unsafe"
@@ -63,6 +64,11 @@ type poller struct {
 	// if poller is used as UnixConn listener,
 	// store the addr and remove it when exit.
 	unixSockAddr string
+
+	// listener only: whether the accept loop has been started, and closed
+	// when it has exited.
+	started int32
+	chDone  chan struct{}
 
 	ReadBuffer []byte // default reading buffer
 }
@@ -185,6 +191,8 @@ func (p *poller) start() {
 	defer logging.Debug("NBIO[%v][%v_%v] stopped", p.g.Name, p.pollType, p.index)
 
 	if p.isListener {
+		atomic.StoreInt32(&p.started, 1)
+		defer close(p.chDone)
 		p.acceptorLoop()
 	} else {
 		defer func() {
@@ -372,6 +380,12 @@ func (p *poller) stop() {
 		if p.unixSockAddr != "" {
 			_ = os.Remove(p.unixSockAddr)
 		}
+		if atomic.LoadInt32(&p.started) == 1 {
+			// a connection accepted just before the listener was closed
+			// may still be on its way to a poller: wait for the loop, so
+			// that Stop closes it like every other connection.
+			<-p.chDone
+		}
 	} else {
 		n := uint64(1)
 		_, _ = syscall.Write(p.evtfd, (*(*[8]byte)(unsafe.Pointer(&n)))[:])
@@ -508,6 +522,7 @@ func newPoller(g *Engine, isListener bool, index int) (*poller, error) {
 			listener:   ln,
 			isListener: isListener,
 			pollType:   "LISTENER",
+			chDone:     make(chan struct{}),
 		}
 		if g.Network == "unix" {
 			p.unixSockAddr = addr
